@@ -644,6 +644,78 @@ func handlerRunsOnBranch(r *Run) {
 			"the precompile's Run does not confine its handlers to a state branch that is written only on success ("+bad+"): a failed call can leave part of an SDK message in the store", P.witness(append(w1, w2...))...)
 	}
 	r.Floor("R9", "wired precompiles with Cosmos-side effects", n, 3)
+	// the token precompiles (erc20, werc20) are instantiated per token pair, not through the static registry, and
+	// dispatch through HandleMethod: the same obligation, stated on their Run directly
+	wired := map[string]bool{}
+	for _, m := range wiredPrecompiles(r) {
+		wired[m.Pkg] = true
+	}
+	n2 := 0
+	for _, fn := range P.Funcs {
+		if fn.Name() != "Run" || fn.Signature.Recv() == nil || !strings.Contains(fnPkgPath(fn), "/precompiles/") || wired[fnPkgPath(fn)] || fn.Synthetic != "" || isTestSupport(P, fn) {
+			continue
+		}
+		if len(effectSites(fn, 5, map[*ssa.Function]bool{})) == 0 {
+			continue
+		}
+		n2++
+		inst := fnID(fn) + "#handlers-run-on-a-branch"
+		var cache *ssa.Call
+		eachInstr(fn, func(in ssa.Instruction) {
+			if c, ok := in.(*ssa.Call); ok && callInfo(c).Name == "CacheContext" {
+				cache = c
+			}
+		})
+		if cache == nil {
+			r.Bad("R9", inst, P.Pos(fnPos(fn)), "Run dispatches its methods on the transaction's own context (no CacheContext): what a method wrote before it failed — transferFrom's reduced or deleted allowance, written before the bank send — stays when the calling contract swallows the failure")
+			continue
+		}
+		bad := ""
+		eachCall(fn, func(ci CallInfo) {
+			if ci.Static == nil || !strings.Contains(fnPkgPath(ci.Static), "/precompiles/") || len(effectSites(ci.Static, 4, map[*ssa.Function]bool{})) == 0 {
+				return
+			}
+			okCtx := false
+			for _, a := range ci.Instr.Common().Args {
+				if namedName(a.Type()) != "Context" {
+					continue
+				}
+				backSlice(a).Any(func(x ssa.Value) bool {
+					if ex, isE := x.(*ssa.Extract); isE && ex.Tuple == ssa.Value(cache) && ex.Index == 0 {
+						okCtx = true
+					}
+					return okCtx
+				})
+			}
+			if !okCtx && bad == "" {
+				bad = ci.Name + " is not given the branch context"
+			}
+		})
+		isWrite := func(in ssa.Instruction) bool {
+			c, ok := in.(ssa.CallInstruction)
+			if !ok {
+				return false
+			}
+			ex, isE := c.Common().Value.(*ssa.Extract)
+			return isE && ex.Tuple == ssa.Value(cache) && ex.Index == 1
+		}
+		w1 := PathQuery{Fn: fn, Start: cache, Block: isWrite, Target: func(x ssa.Instruction) bool {
+			ret, ok := x.(*ssa.Return)
+			return ok && classifyExit(ret) == ExitSuccess
+		}}.Search()
+		var w2 []ssa.Instruction
+		eachInstr(fn, func(in ssa.Instruction) {
+			if isWrite(in) && w2 == nil {
+				w2 = PathQuery{Fn: fn, Start: in, Target: func(x ssa.Instruction) bool {
+					ret, ok := x.(*ssa.Return)
+					return ok && classifyExit(ret) == ExitFailure
+				}}.Search()
+			}
+		})
+		r.Check(bad == "" && w1 == nil && w2 == nil, "R9", inst, P.Pos(fnPos(fn)), "methods get the CacheContext branch; it is written on every success exit and on no failure path",
+			"the precompile's Run does not confine its methods to a state branch that is written only on success ("+bad+"): a failed call can leave part of an SDK message (a consumed allowance without the transfer) in the store", P.witness(append(w1, w2...))...)
+	}
+	r.Floor("R9", "per-token precompiles with Cosmos-side effects", n2, 2)
 }
 
 // flushSurvivesRevert (C05 R10): what a mid-transaction Commit wrote is rewritten by the next Commit.
